@@ -78,6 +78,8 @@ mod rhs_types;
 mod searcher;
 mod strict_partial_ord;
 mod types;
+#[cfg(wirefilter_verif)]
+pub mod verif;
 
 pub use self::ast::field_expr::{
     ComparisonExpr, ComparisonOpExpr, IdentifierExpr, IntOp, OrderingOp,
